@@ -1280,6 +1280,21 @@ def _full(shape_args, value, dtype):
     return STensor.const(shape, value, dtype)
 
 
+@model(torch.broadcast_tensors)
+def m_broadcast_tensors(it, *tensors):
+    ts = [as_tensor(it, t) for t in tensors]
+    if not ts:
+        return ()
+    shape = ts[0].shape_
+    for t in ts[1:]:
+        shape, _, _ = broadcast_shapes(it, shape, t.shape_)
+    out = []
+    for t in ts:
+        _, pa, _ = broadcast_shapes(it, t.shape_, shape)
+        out.append(STensor(shape, (lambda idx, t=t, pa=pa: t.fn(_op_idx(idx, t.shape_, pa))), t.dtype))
+    return tuple(out)
+
+
 @model(torch.arange)
 def m_arange(it, *args, **kw):
     if len(args) != 1:
